@@ -22,10 +22,13 @@ def fquote(s, q="'"):
 class LongGen(F.Gen):
     NARGS = 14
 
-    def __init__(self, rng, features=(), maxlit=150):
+    def __init__(self, rng, features=(), maxlit=150, apostrophes=True):
         super().__init__(rng, features)
         self.maxlit = maxlit
         self.nlabel = 100
+        # apostrophes=False: no apostrophe inside literal values (the backend prints literals with '...' delimiters and
+        # doubles embedded apostrophes; C04 shows that such literals can be broken across lines)
+        self.words = WORDS if apostrophes else [w for w in WORDS if "'" not in w]
 
     # ------------------------------------------------------------------ text pieces
     def literal(self, n=None):
@@ -34,7 +37,7 @@ class LongGen(F.Gen):
         n = n or rng.choice([8, 20, 40, 70, 95, 110, 118, 122, 125, 127, 129, 131, 133, 140, self.maxlit])
         s = ''
         while len(s) < n:
-            s += rng.choice(WORDS) + rng.choice([' ', ' ', ', ', '  ', ''])
+            s += rng.choice(self.words) + rng.choice([' ', ' ', ', ', '  ', ''])
         s = s[:n].rstrip() or 'x'
         if s.endswith('&'):
             s += 'z'            # a literal that ends in & is legal but obscures the reports: keep & inside
@@ -57,15 +60,19 @@ class LongGen(F.Gen):
         return {'s': 'raw', 'text': text}
 
     # ------------------------------------------------------------------ statements
+    KINDS = ['longassign', 'longcall', 'kwcall', 'print', 'write', 'cond', 'inlineif', 'charassign', 'constructor', 'select',
+             'where', 'forall', 'label', 'allocate', 'comment', 'concat', 'fcallchain', 'assoc']
+
     def stmt(self, d):
         rng = self.rng
-        r = rng.random()
-        if r < 0.45:
+        if rng.random() < 0.45:
             return super().stmt(d)
+        return self.long_stmt(rng.choice(self.KINDS + ['longassign', 'print']), d)
+
+    def long_stmt(self, k, d):
+        """One statement of the given long kind."""
+        rng = self.rng
         writable = [v for v in self.int_writable if v not in self.active_loops]
-        k = rng.choice(['longassign', 'longassign', 'longcall', 'kwcall', 'print', 'print', 'write', 'cond', 'inlineif',
-                        'charassign', 'constructor', 'select', 'where', 'forall', 'label', 'allocate', 'comment', 'concat',
-                        'fcallchain', 'assoc'])
         if k == 'cond' and d <= 0:
             k = 'inlineif'
         if k == 'longassign':
@@ -83,7 +90,8 @@ class LongGen(F.Gen):
                 items.append(self.literal() if rng.random() < 0.6 else F.rx(self.long_int(2)))
             return [self.raw('print *, ' + ', '.join(items))]
         if k == 'write':
-            fmt = fquote('(' + ', '.join(rng.choice(['a', 'i0', '1x', "'text'", 'i8']) for _ in range(rng.randint(2, 30))) + ')')
+            fmt = fquote('(' + ', '.join(rng.choice(['a', 'i0', '1x', "'text'" if "don't" in self.words else '"text"', 'i8'])
+                                         for _ in range(rng.randint(2, 30))) + ')')
             items = [self.literal() if rng.random() < 0.5 else F.rx(self.long_int(1)) for _ in range(rng.randint(1, 4))]
             return [self.raw(f'write(*, {fmt}) ' + ', '.join(items))]
         if k == 'cond':
@@ -117,7 +125,7 @@ class LongGen(F.Gen):
                     self.raw('deallocate(' + ', '.join(names) + ', stat=istat)')]
         if k == 'comment':
             w = rng.choice(writable)
-            c = '! ' + ' '.join(rng.choice(WORDS) for _ in range(rng.randint(5, 40)))
+            c = '! ' + ' '.join(rng.choice(self.words) for _ in range(rng.randint(5, 40)))
             if rng.random() < 0.5:
                 return [self.raw(c)]
             return [self.raw(f'{w} = mod({F.rx(self.long_int(rng.choice([2, 4])))}, 5)  {c}')]
@@ -144,9 +152,13 @@ class LongGen(F.Gen):
         return body
 
     # ------------------------------------------------------------------ whole programs
-    def program(self, nstmts=8, depth=2, nest_levels=0):
+    def program(self, nstmts=8, depth=2, nest_levels=0, showcase=False):
         prog = super().program(nstmts=nstmts, depth=depth)
         kernel = prog['units'][0]
+        if showcase:
+            # one statement of every long kind, so that every construct occurs in every program
+            for k in self.KINDS:
+                kernel['body'] += self.long_stmt(k, 1)
         nwide = self.rng.choice([12, 30, 45])
         extra = [
             self.raw('integer :: ' + ', '.join(f'local_scalar_variable_{i + 1}' for i in range(nwide))),
